@@ -158,10 +158,8 @@ class Lab:
                 # the measuring step, wherever it lives and whatever it is called: the (outermost) function of the project that
                 # is handed both the token list of the lexing step and the language object registered for the lexer
                 everything = list(args) + list(kwargs.values()) + (list(f.self_obj.fields.values()) if isinstance(f.self_obj, Sym) else [])
-                if any(is_token_list(a) for a in everything) and any(is_language(a) for a in everything) and not self._measuring:
-                    if self.measure_qual is None or q == self.measure_qual:
-                        return measured_result(f, args, kwargs)
-                    # a wrapper around the measuring function: interpret it, the inner call is stubbed
+                if any(is_token_list(a) for a in everything) and any(is_language(a) for a in everything):
+                    return measured_result(f, args, kwargs)
                 if q.endswith("CheckResult.add") and self.deep:
                     self.calls.append(("add", list(args), dict(kwargs)))
                 if (q.endswith("CheckResult.report") or q.endswith("CheckResult.add")) and not self.deep:
